@@ -293,6 +293,18 @@ def run_declarative_lists(k2, k3, d1, res):
                         els += [e2, e3, {"type": "ground", "place_after": "V1"}]
                         res["evals"] += 1
                         judge_declarative({"unit": 2, "elements": els}, res)
+                        if L1 == 1:
+                            # a fourth element placed after the third or the second: its target comes after whatever precedes it in the
+                            # list (unnamed wires, the ground entry)
+                            for pa4 in ("E3", "E2"):
+                                if (pa4 == "E2" and k2 == "line") or (pa4 == "E3" and k3 == "line"):
+                                    continue
+                                for at_end in (False, True):
+                                    e4 = mk_element("resistor", "E4", 3, d1)
+                                    e4["place_after"] = pa4
+                                    els4 = els[:3] + ([els[3], e4] if at_end else [e4, els[3]])
+                                    res["evals"] += 1
+                                    judge_declarative({"unit": 2, "elements": els4}, res)
 
 
 def handler_cases():
